@@ -59,6 +59,7 @@ type Output struct {
 	ModelDescs  map[string]string `json:"model_descriptions"`
 	WallS       float64           `json:"wall_s"`
 	LoadS       float64           `json:"load_s"`
+	Notes       []string          `json:"notes,omitempty"`
 }
 
 func main() {
@@ -97,6 +98,7 @@ func main() {
 	}
 
 	var fns []*ssa.Function
+	var res0 []string
 	for fn := range ssautil.AllFunctions(u.Prog) {
 		if fn.Synthetic != "" && !strings.Contains(fn.Synthetic, "package initializer") {
 			continue
@@ -108,12 +110,23 @@ func main() {
 			continue
 		}
 		if fre.MatchString(u.contractKey(fn)) && !skre.MatchString(u.contractKey(fn)) {
+			if u.coveredByInlining(fn) {
+				// an unexported, contract-less, loop-free helper whose every call site is in a function verified here:
+				// its body is executed at those call sites (inl. obligations), in the context it actually runs in;
+				// a stand-alone run under precondition true would demand more than any property states
+				res0 = append(res0, u.contractKey(fn))
+				continue
+			}
 			fns = append(fns, fn)
 		}
 	}
 	sort.Slice(fns, func(i, j int) bool { return u.contractKey(fns[i]) < u.contractKey(fns[j]) })
 
 	res := Output{Unit: u.Name, ModelDescs: map[string]string{}, LoadS: loadS}
+	sort.Strings(res0)
+	for _, n := range res0 {
+		res.Notes = append(res.Notes, "helper "+n+" is verified at its call sites (inlined), not stand-alone")
+	}
 	var allObls []*Obligation
 	for _, fn := range fns {
 		fc := u.contractOf(fn)
